@@ -1,15 +1,16 @@
 SPECIFICATION SpecAtomic
 CONSTANTS
   SlotsPerEpoch = 32
-  Slots = {0, 31, 32, 100}
-  GivenEpochs = {0, 3}
-  MaxBatch = 3
+  Slots = {31, 32}
+  GivenEpochs = {3}
+  MaxBatch = 1
   NReq = 1
-  ForkEpochs = {1}
-  LawBatch = 5
+  ForkEpochs = {1, 4}
+  LawBatch = 1
   HistOps = {}
   HistKinds = {}
   HistFails = {}
+  Boots <- BootsWider
 INVARIANTS TypeOK DomainRight Memoryless HandedOwn SigCorrect NoSignatureWithoutDomain ErrorHasNoSignatures RefusedForCause
 PROPERTIES ReplyStable
 CHECK_DEADLOCK FALSE
